@@ -9,6 +9,9 @@
       are checked not to be trivial by evaluating concrete handshakes.
    3. A concrete replayed stream satisfies no_forgery, C11_tamper_rejected
       applies to it and the read fails.
+   6. C11_sessions_independent instantiated; a concrete two-session schedule
+      (session 1 gives a half sent record up, session 0 only releases
+      redundantly) satisfies releases_idle for session 0 and not for 1.
    5. C11_conn_stream_roundtrip instantiated; a concrete Conn run with a
       chunked write cut short by the net.Conn, a Flush retry, the remainder
       written, and reads in odd buffer sizes. *)
@@ -347,3 +350,38 @@ Definition ex_conn_check : bool :=
   bytes_eqb (delivered outs) (ex_b1 ++ [1; 2; 3]).
 Example ex_conn_run : ex_conn_check = true.
 Proof. vm_compute. reflexivity. Qed.
+
+(* ---------------- 6. several sessions in one process ---------------- *)
+Example ex_sessions_independent :=
+  C11_sessions_independent N wsym t_enc t_dec t_hkdf t_enc_len t_dec_enc.
+
+(* session 0: write, flush, redundant release, write, header + 1 body byte,
+   [session 1 writes and flushes 5 header bytes, then gives the record up],
+   resumed flush, redundant release.  Session 0's releases are idle, session
+   1's is not; session 0's peer reads both messages; session 1 is torn. *)
+Definition ex_sched : list (nat * mop) :=
+  [(0%nat, MOp (SWrite [1; 2])); (0%nat, MOp (SFlush (100, false) (100, false))); (0%nat, MRelease);
+   (0%nat, MOp (SWrite [3; 4; 5])); (0%nat, MOp (SFlush (100, false) (1, false)));
+   (1%nat, MOp (SWrite [7; 7])); (1%nat, MOp (SFlush (5, false) (0, false))); (1%nat, MRelease);
+   (0%nat, MOp (SFlush (100, false) (100, false))); (0%nat, MRelease); (0%nat, MOp (SFlush (100, false) (100, false)))].
+Definition ex_cs : list (cstate N) := [mkCS 998 5 6 0; mkCS 0 8 9 0].
+
+Example ex_sched_idle :
+  releases_idle N wsym t_enc t_hkdf (srun_init N wsym (mkCS 998 5 6 0)) (proj 0 ex_sched) /\
+  ~ releases_idle N wsym t_enc t_hkdf (srun_init N wsym (mkCS 0 8 9 0)) (proj 1 ex_sched).
+Proof.
+  split.
+  - vm_compute. repeat split; reflexivity.
+  - vm_compute. intros (_ & _ & (H & _) & _). discriminate H.
+Qed.
+
+Example ex_sched_run :
+  match proc_run N wsym t_enc t_hkdf (map (srun_init N wsym) ex_cs) ex_sched with
+  | [r0; r1] =>
+    r_accepted N wsym r0 = [[1; 2]; [3; 4; 5]] /\
+    read_n N wsym t_dec t_hkdf 2 (mkCS 998 5 6 0) (r_wire N wsym r0)
+    = Some ([[1; 2]; [3; 4; 5]], sn_cs (r_snd N wsym r0), []) /\
+    length (r_wire N wsym r1) = 5%nat /\ sn_body (r_snd N wsym r1) = []
+  | _ => False
+  end.
+Proof. vm_compute. repeat split; reflexivity. Qed.
